@@ -558,6 +558,30 @@ def r12_default_value_available(chk, prog, rule='R12'):
     chk.require(n >= 2, 'argument classes with print-default on: %d' % n)
 
 
+def r13_text_block_width(chk, prog, rule='R13'):
+    """the descriptions are wrapped at the configured line length: every TextBlock that the usage printer creates gets
+    the line-length member (the one setLineLength() stores into) as its width - in every layout branch"""
+    AD = 'celma::prog_args::detail::ArgumentDesc'
+    setter = prog.one(AD, 'setLineLength')
+    fld = {field_name(children(x)[0]) for x in setter.walk() if x.get('k') == 'BinaryOperator' and x.get('op') == '='}
+    fld.discard(None)
+    chk.require(len(fld) == 1, 'ArgumentDesc::setLineLength: stored member not found')
+    width = next(iter(fld))
+    n = 0
+    for f in prog.functions:
+        if f.classq != AD or f.body is None:
+            continue
+        for x in f.walk():
+            if x.get('k') in ('CXXConstructExpr', 'CXXTemporaryObjectExpr') and \
+                    (x.get('callee') or '').endswith('TextBlock::TextBlock') and len(children(x)) >= 2:
+                n += 1
+                a = children(x)[1]
+                chk.check(field_name(a) == width, rule, f.name, 'the description block is as wide as the configured line '
+                          'length', f.loc(x), 'width argument is %s, setLineLength() stores into %s' % (
+                              field_name(a) or strip_all_casts(a).get('ref', {}).get('name') or 'a constant', width))
+    chk.require(n >= 2, 'TextBlock objects created by the usage printer: %d' % n)
+
+
 def r4_one_settings_object(chk, prog):
     """'visible under the CURRENT settings': the usage settings (print hidden / deprecated, short-only / long-only)
     live in one UsageParams object per handler family; the arguments that change them at run time write into that
@@ -637,6 +661,12 @@ def run(chk):
     r10_listing_data_is_configuration(chk, prog)
     chk.rule('R11', 'each pass prints its own caption; setCaption() sets them in the documented order', 3)
     r11_captions(chk, prog)
+    chk.rule('R13', 'the description blocks of the usage are as wide as the configured line length', 2)
+    r13_text_block_width(chk, prog)
+    # the keys that the usage lists are the keys the argument was defined with: key-specification parser (C05-R7)
+    chk.rule('R14', 'the listed keys are the keys of the specification (two-part key specification, shared with C05-R7)', 5)
+    from . import c05 as _c05
+    _c05.r7_two_part_spec(chk, prog, rule='R14')
     chk.rule('R12', 'every argument class with print-default on provides defaultValue()', 2)
     r12_default_value_available(chk, prog)
     chk.rule('R9', 'isMandatory/isHidden/isDeprecated report the configured properties', 7)
